@@ -56,6 +56,9 @@ def post_do_call(run, snap, res, args, kwargs):
         for v in cn:
             if v is None or (isinstance(v, float) and (math.isnan(v) or v != int(v))) or v < 0:
                 mech = "cn-negative" if (v is not None and v == v and v < 0) else "cn-not-integer"
+                if mech == "cn-negative" and v == -2 ** 63:
+                    # not a wrong sign in the arithmetic: the (correctly huge) estimate does not fit the 64-bit integer column
+                    mech = "cn-int64-overflow"
                 return run.violate(mon, mech + ("-purity" if purity and purity < 1 else ""), f"reported cn {v!r}", wit)
     if filters:
         run.held(mon, f"call:{method}:filtered")
